@@ -291,7 +291,15 @@ func (ci *ConstructorInvoker) Invoke(
 	// Check for error return
 	if info.HasErrorReturn && len(results) > 0 {
 		lastResult := results[len(results)-1]
-		if !lastResult.IsNil() {
+
+		// IsNil panics on values that cannot be nil (an error type may be a struct)
+		isNil := false
+		switch lastResult.Kind() {
+		case reflect.Chan, reflect.Func, reflect.Interface, reflect.Map, reflect.Pointer, reflect.Slice, reflect.UnsafePointer:
+			isNil = lastResult.IsNil()
+		}
+
+		if !isNil {
 			if err, ok := lastResult.Interface().(error); ok {
 				return nil, fmt.Errorf("constructor error: %w", err)
 			}
